@@ -5,7 +5,7 @@ import sympy as sp
 
 from ..report import RuleDef
 from ..src import AnalysisError
-from ..vg import (App, BoolT, Cmp, Const, Evaluator, ExtRef, Frame, Ite, Obj,
+from ..vg import (App, BoolT, Cmp, Const, DictV, Evaluator, ExtRef, Frame, Ite, Obj,
                   Tup, contains_unknown, is_num, mk_not, num_equal, pred_equiv,
                   same, show, sym, truthy)
 from .c01 import _find_apps, shape_oracle
@@ -444,7 +444,52 @@ def r5(ctx):
                     'contains() but not in the mask, so the compound mask is not the sampled membership function '
                     '(CirclePixelRegion(..., meta={"include": False}) & other)', f.loc())
         else:
-            ctx.ok(construct, 'operands padded to the union box, complemented when excluded; operator applied; union box carried')
+            # outside its own box an operand is padded with the value it has there: 0 for a simple (included) shape, but a
+            # nested compound with excluded operands contains everything far away — partial evaluation on the 12 cases
+            # operator x include flags of a nested compound operand
+            import operator as _op
+            wrong = []
+            m = ctx.model
+            circ = m.cls('CirclePixelRegion')
+            for opname in ('or_', 'and_', 'xor'):
+                for i1 in (True, False):
+                    for i2 in (True, False):
+                        _, ev2, boxes2 = _compound_setup(ctx)
+                        ev2.hooks[f.qualname] = ev2.hooks['regions.core.core:PixelRegion.to_mask']
+                        leaf = lambda tag, inc: Obj('CirclePixelRegion', {'meta': DictV([{'include': Const(inc)}])}, tag, circ)  # noqa: E731
+                        inner = Obj('CompoundPixelRegion', {'region1': leaf('P', i1), 'region2': leaf('Q', i2),
+                                                            'operator': ExtRef('operator.' + opname), 'meta': DictV([{}])},
+                                    'self.region1', ci)
+                        top = Obj('CompoundPixelRegion', {'region1': inner, 'region2': leaf('self.region2', True),
+                                                          'operator': ExtRef('operator.and_'), 'meta': DictV([{}])}, 'self', ci)
+                        out2 = ev2.run(f, [top], {'mode': Const('center'), 'subpixels': sp.Integer(1)})
+                        t2 = ev2.gated_return(out2)
+                        d2 = t2.fields.get('data') if isinstance(t2, Obj) else None
+                        p1 = [p_ for p_ in _find_apps(d2, 'numpy.pad') if isinstance(p_.args[0], App) and p_.args[0].args
+                              and p_.args[0].args[0] is inner] if d2 is not None else []
+                        if not p1:
+                            raise AnalysisError('C02.R5', construct, f'nested-operand probe not reducible: {show(t2, 200)}')
+                        fill = sp.Integer(0)
+                        for a_ in p1[0].args[2:]:
+                            if isinstance(a_, Tup) and len(a_.items) == 2 and isinstance(a_.items[0], Const) \
+                                    and a_.items[0].v == 'constant_values':
+                                fill = a_.items[1]
+                        if len(p1[0].args) > 3 and not isinstance(p1[0].args[3], Tup):
+                            fill = p1[0].args[3]
+                        want_fill = int(bool(getattr(_op, opname)(int(not i1), int(not i2))))
+                        if not (is_num(fill) and fill.is_number):
+                            raise AnalysisError('C02.R5', construct, f'pad value of a nested compound operand not reducible: {show(fill, 200)}')
+                        if int(fill) != want_fill:
+                            wrong.append((opname, i1, i2, int(fill), want_fill))
+            if wrong:
+                opname, i1, i2, got_fill, want_fill = wrong[0]
+                ctx.bad(construct, 'nested-operand-padding',
+                        f'an operand that is itself a compound (P {opname} Q with include flags {i1}, {i2}) is padded with {got_fill} '
+                        f'outside its own box, but it has membership {want_fill} there: the mask of C & (B | excluded A) is not the '
+                        f'sampled membership function ({len(wrong)} of 12 operator/include cases)', f.loc())
+            else:
+                ctx.ok(construct, 'operands padded to the union box with their outside value, complemented when excluded; operator '
+                       'applied; union box carried')
 
 
 def r6(ctx):
